@@ -21,11 +21,11 @@ fn space_for(tier: Tier) -> Space {
     let mut s = Space::new();
     match tier {
         Tier::Quick => {
-            s.tok("T", &gen::T_FULL, 3, 1024).tok("T0", &gen::T_CORE, 4, 1024).tok("TU", &gen::T_UNI, 3, 1024);
+            s.tok("T", &gen::T_FULL, 3, 1024).tok("T0", &gen::T_CORE, 4, 1024).tok("TU", &gen::T_UNI, 3, 1024).tok("TQ", &gen::T_QUANT, 5, 1024).tok("TG", &gen::T_GROUP, 6, 1024).tok("TX", &gen::T_XCLS, 4, 1024);
             s.ast("K", 4, 128).ast("Q", 3, 128).ast("CL", 3, 128).ast("G", 4, 128).ast("CAPQ", 3, 128);
         }
         Tier::Thorough => {
-            s.tok("T", &gen::T_FULL, 4, 2048).tok("T0", &gen::T_CORE, 5, 2048).tok("TU", &gen::T_UNI, 4, 2048);
+            s.tok("T", &gen::T_FULL, 4, 2048).tok("T0", &gen::T_CORE, 5, 2048).tok("TU", &gen::T_UNI, 4, 2048).tok("TQ", &gen::T_QUANT, 6, 2048).tok("TG", &gen::T_GROUP, 7, 2048).tok("TX", &gen::T_XCLS, 5, 2048);
             s.ast("K", 5, 128).ast("Q", 4, 128).ast("CL", 4, 128).ast("G", 5, 128).ast("AN", 4, 128).ast("CAPQ", 4, 128);
         }
     }
@@ -179,17 +179,41 @@ impl Check for C17 {
                 (Verdict::Valid(p), Out::Ok(r)) => (p, r),
                 _ => return,
             };
+            out.shape = px.ast.shape();
             out.inc("nontrivial");
             // ^ and $ are ordinary characters: is_match against the reference language of the XSD parse
             let mut inputs: Vec<String> = INPUTS.iter().map(|s| s.to_string()).collect();
             inputs.push(text.to_string());
-            if !px.ast.has_backref() {
+            // (also under flags m and s when the pattern contains ^ $ or a dot: the flags
+            // must not turn ^ and $ into anchors, and s must reach the dot)
+            let anchors_or_dot = text.contains('^') || text.contains('$') || text.contains('.');
+            for lflags in ["", "m", "s"] {
+                if px.ast.has_backref() || (!lflags.is_empty() && !anchors_or_dot) {
+                    continue;
+                }
+                let rx_flagged;
+                let rx = if lflags.is_empty() {
+                    rx
+                } else {
+                    match imp::compile(text, lflags, true) {
+                        Out::Ok(r) => {
+                            rx_flagged = r;
+                            &rx_flagged
+                        }
+                        o => {
+                            if !o.is_crash() {
+                                out.fail("C17", &Case::new(&scope_name, text, lflags).xsd(true).api("compile"), "XsdRejectsValid", "Ok (accepted without the flag)", &o.show(), "");
+                            }
+                            continue;
+                        }
+                    }
+                };
                 for inp in &inputs {
                     let chars: Vec<char> = inp.chars().collect();
                     if chars.len() > 12 {
                         continue;
                     }
-                    let sem = Sem { s: &chars, f: Fl::default(), ucd: &ctx.ucd };
+                    let sem = Sem { s: &chars, f: Fl::parse(lflags), ucd: &ctx.ucd };
                     let want = sem.lang_is_match(&px.ast);
                     out.inc("states");
                     match imp::is_match(rx, inp) {
@@ -198,7 +222,7 @@ impl Check for C17 {
                             if g != want {
                                 out.fail(
                                     "C17",
-                                    &Case::new(&scope_name, text, "").xsd(true).input(inp).api("is_match"),
+                                    &Case::new(&scope_name, text, lflags).xsd(true).input(inp).api("is_match"),
                                     if g { "WrongTrue" } else { "WrongFalse" },
                                     &want.to_string(),
                                     &g.to_string(),
